@@ -251,6 +251,8 @@ def run(tier, seed):
     print(f"[C10] {len(units)} (assignment, formats) menus", flush=True)
     calls = 0
     for status, res in run_pool("vx.checks.c10", "work", units):
+        if status == "skipped":
+            continue
         if status != "ok":
             run.report({"signature": {"kind": status}, "what": f"worker failed (a crash of the process is itself a "
                         f"violation of C10): {res}", "case": {}})
